@@ -52,7 +52,7 @@ PROPS = {
         "assumptions": ["the hash function is uninterpreted: the harness's recording hasher feeds sha256 with (canonical header of the stat it is given) ++ bytes written"],
     },
     "C01": {
-        "suites": [sync.SyncC01, diff.DiffSuite],
+        "suites": [sync.SyncC01, faults.FaultResync, diff.DiffSuite],
         "assumptions": ["Linux/ext4 syscall semantics as observed through an independent lstat snapshot"],
     },
     "C09": {
